@@ -68,6 +68,9 @@ func runSolver(sc solverCfg, script string, timeoutS int) solverRes {
 // (all three in parallel when `all` is set).
 func decide(ob *Obligation, timeoutS int, all bool, dumpDir string) {
 	vc := ob.vc
+	if ob.Short && timeoutS > 3 {
+		timeoutS = 3
+	}
 	if ob.Expect != "sat" {
 		// pruned scripts first (sound: fewer hypotheses); a non-unsat answer is never trusted from a pruned script
 		full := vc.script(ob, scriptOpts{model: true, noPrune: true})
@@ -81,6 +84,9 @@ func decide(ob *Obligation, timeoutS int, all bool, dumpDir string) {
 			t := timeoutS
 			if t > 4 {
 				t = 4
+			}
+			if ob.Short && (o.rounds == 4 || o.rounds == 8) {
+				continue
 			}
 			r := runSolver(solvers[0], sc, t)
 			ob.Tried = append(ob.Tried, fmt.Sprintf("%s(pruned %dB):%s:%.2fs", r.solver, len(sc), r.status, r.secs))
@@ -135,7 +141,7 @@ func decide(ob *Obligation, timeoutS int, all bool, dumpDir string) {
 		for _, sc := range solvers {
 			r := try(sc)
 			results = append(results, r)
-			if r.status == "unsat" || r.status == "sat" {
+			if r.status == "unsat" || r.status == "sat" || ob.Short {
 				break
 			}
 		}
